@@ -59,6 +59,7 @@ Theorem C07_source_facts :
   gen_nonce_size + gen_tag_size = overhead /\
   gen_encode_rejects_above = max_payload /\ gen_writer_encodes_first = true /\
   gen_wsd_step = max_payload /\
+  gen_adapter_capacity = adapter_cap /\ gen_adapter_drops_when_full = true /\
   gen_paths = model_table.
 Proof. repeat split; reflexivity. Qed.
 Print Assumptions C07_source_facts.
@@ -108,6 +109,23 @@ Theorem C07_exact_when_blocks_fit : forall pa k, 0 < p_buf pa -> trailer_silent 
     r_out (receive pa k expect (o_frames o)) = concat blocks.
 Proof. exact reassembly_exact_small_blocks. Qed.
 Print Assumptions C07_exact_when_blocks_fit.
+
+(** Beyond the tunnel: the shell client adapter between the mesh receiver and
+    the WebSocket writer DROPS output when its 64-message buffer stays full
+    (known finding): 65 messages arriving while the consumer is paused - the
+    last one never comes out. *)
+Theorem C07_refuted_shell_adapter_drops : exists ops : list aop,
+  a_out (fold_left adapter_step (ops ++ repeat APop 100) {| a_queue := []; a_out := [] |}) <> pushed ops.
+Proof. exact adapter_drops_refuted. Qed.
+Print Assumptions C07_refuted_shell_adapter_drops.
+
+(** ... and it is exact whenever the consumer keeps up (there is room each time
+    a message arrives). *)
+Theorem C07_adapter_exact_when_never_full : forall ops,
+  never_full {| a_queue := []; a_out := [] |} ops = true ->
+  a_out (adapter_run ops) ++ a_queue (adapter_run ops) = pushed ops.
+Proof. exact adapter_exact_when_never_full. Qed.
+Print Assumptions C07_adapter_exact_when_never_full.
 
 (** The size-level oracle that the correspondence check evaluates on the
     implementation's cases computes the frame lengths of the byte-level model
